@@ -75,7 +75,7 @@ func VHarness_C03_RequestVote() {
 
 // C03/C02: a message carrying a term lower than the local term never changes
 // term, vote, role or log (it is dropped, at most answered with NoOP).
-// vcheck: reach=done workers=16
+// vcheck: props=C17 reach=noop,done workers=16
 func VHarness_C03_StaleTerm() {
 	r, c := vRaft(vRaftOpts{shapes: vQuickShapes(), log: vStdLog(), flags: true})
 	p := vRecord(r)
@@ -96,7 +96,174 @@ func VHarness_C03_StaleTerm() {
 	vAssert(r.term == p.term && r.vote == p.vote && r.state == p.state, "stale-term-no-state-change")
 	vAssert(post.last() == p.log.last() && post.committed == p.log.committed, "stale-term-no-log-change")
 	for i := range r.msgs {
-		vAssert(r.msgs[i].Type == pb.NoOP, "stale-term-only-noop-reply")
+		vAssert(r.msgs[i].Type == pb.NoOP && r.msgs[i].To == m.From, "stale-term-only-noop-reply")
+	}
+	// C17/P4: with CheckQuorum or PreVote a lower-term leader (or pre-vote
+	// candidate) is told about the higher term, otherwise it could never catch up
+	if m.Type == pb.RequestPreVote || (isLeaderMessage(m.Type) && (r.checkQuorum || r.preVote)) {
+		_, known := r.remotes[m.From]
+		_, knownN := r.nonVotings[m.From]
+		_, knownW := r.witnesses[m.From]
+		if known || knownN || knownW || !isResponseMessageType(m.Type) {
+			vAssert(len(r.msgs) == 1, "P4-noop-reply-to-lower-term-leader")
+			vReach("noop")
+		}
+	}
+	vReach("done")
+}
+
+func vSmallLog() vLogOpts {
+	if vTier() > 0 {
+		return vLogOpts{maxPers: 1, maxWin: 2, ss: true}
+	}
+	return vLogOpts{maxPers: 1, maxWin: 1, noAppliedTo: true, allSaved: true}
+}
+
+// vGranted counts, independently of raft.votes bookkeeping, how many voting
+// members have granted their vote once the response m has been taken into
+// account (first response of a member wins).
+func vGranted(p *vPre, c vCluster, m pb.Message) uint64 {
+	n := uint64(0)
+	for _, id := range c.shape.voting() {
+		g, seen := p.votes[id]
+		yes := vOr(vAnd(seen, g), vAnd(!seen, vAnd(m.From == id, !m.Reject)))
+		n += vIte(yes, 1, 0)
+	}
+	return n
+}
+
+// C03/V4 (+C18): a candidate becomes leader only with granted votes from a
+// quorum of voting members; responses of non-voting or unknown replicas never count.
+// vcheck: reach=elected,notelected,done workers=16
+func VHarness_C03_VoteResp() {
+	shapes := []int{vS3, vS3w, vS4}
+	if vTier() > 0 {
+		shapes = []int{vS1, vS3, vS3w, vS4, vS5, vS5w}
+	}
+	r, c := vRaft(vRaftOpts{shapes: shapes, log: vSmallLog(), roles: []State{candidate}, votes: true, flags: true})
+	p := vRecord(r)
+	m := pb.Message{Type: pb.RequestVoteResp, To: c.self, From: vSender(c), Term: r.term, Reject: vBool("reject")}
+	peer := Peer{raft: r}
+	err := peer.Handle(m)
+	vAssert(err == nil, "noerr")
+	vFrame(p, r, c, "")
+	q := uint64(len(c.shape.voting())/2 + 1)
+	granted := vGranted(p, c, m)
+	if r.state == leader {
+		vReach("elected")
+		vAssert(granted >= q, "V4-leader-needs-quorum-of-granted-votes")
+		vAssert(vIn(c.self, c.shape.voters), "V4-leader-is-voter")
+		// V6: the new leader appends an entry of its own term
+		post := vSnapLog(r.log)
+		vAssert(post.last() == p.log.last()+1, "V6-noop-appended")
+		vAssert(post.term(post.last()) == r.term, "V6-noop-at-own-term")
+	} else {
+		vReach("notelected")
+		vAssert(granted < q || p.state != candidate, "V4-quorum-elects")
+	}
+	vReach("done")
+}
+
+// C03: pre-vote traffic never changes term, vote or role of the receiver, and a
+// pre-vote is only granted to a candidate with an up-to-date log at a higher term.
+// vcheck: reach=granted,rejected,done workers=16
+func VHarness_C03_RequestPreVote() {
+	r, c := vRaft(vRaftOpts{shapes: vQuickShapes(), log: vSmallLog(), flags: true, preVote: true})
+	p := vRecord(r)
+	m := pb.Message{Type: pb.RequestPreVote, To: c.self, From: vSender(c), Term: vU64("mterm"),
+		LogTerm: vU64("mlogterm"), LogIndex: vU64("mlogindex")}
+	vAssume(m.Term >= r.term) // lower terms: VHarness_C03_StaleTerm
+	vAssume(m.Term < vMaxIdx)
+	peer := Peer{raft: r}
+	err := peer.Handle(m)
+	vAssert(err == nil, "noerr")
+	vFrame(p, r, c, "")
+	vAssert(r.term == p.term && r.vote == p.vote && r.state == p.state && r.leaderID == p.leaderID, "PV-no-state-change")
+	li := p.log.last()
+	lt := p.log.term(li)
+	for i := range r.msgs {
+		out := &r.msgs[i]
+		if out.Type == pb.RequestPreVoteResp && !out.Reject {
+			vReach("granted")
+			vAssert(m.Term > p.term, "PV-grant-needs-higher-term")
+			vAssert(vOr(m.LogTerm > lt, vAnd(m.LogTerm == lt, m.LogIndex >= li)), "PV-grant-needs-up-to-date-log")
+		}
+		if out.Type == pb.RequestPreVoteResp && out.Reject {
+			vReach("rejected")
+		}
+	}
+	vReach("done")
+}
+
+// C03: a pre-vote candidate starts the real campaign only with a quorum of
+// pre-votes, and never becomes leader through pre-vote responses alone
+// (except as the only voting member).
+// vcheck: reach=campaign,waiting,done workers=16
+func VHarness_C03_PreVoteResp() {
+	shapes := []int{vS3, vS3w, vS4}
+	r, c := vRaft(vRaftOpts{shapes: shapes, log: vSmallLog(), roles: []State{preVoteCandidate}, votes: true, flags: true, preVote: true})
+	p := vRecord(r)
+	m := pb.Message{Type: pb.RequestPreVoteResp, To: c.self, From: vSender(c), Term: vU64("mterm"), Reject: vBool("reject")}
+	// Peer.Handle does not filter RequestPreVoteResp by membership (it does for
+	// RequestVoteResp); a pre-vote response is only ever sent by a replica that was
+	// asked, i.e. a voting member, so the sender is taken among the members.
+	vAssume(m.From != 9)
+	// a granted pre-vote carries the prospective term, a rejection the responder's term
+	vAssume(vOr(vAnd(!m.Reject, m.Term == r.term+1), vAnd(m.Reject, m.Term == r.term)))
+	peer := Peer{raft: r}
+	err := peer.Handle(m)
+	vAssert(err == nil, "noerr")
+	vFrame(p, r, c, "")
+	q := uint64(len(c.shape.voting())/2 + 1)
+	granted := vGranted(p, c, m)
+	vAssert(r.state != leader, "PV-never-leader-directly")
+	if r.state == candidate {
+		vReach("campaign")
+		vAssert(granted >= q, "PV-campaign-needs-quorum")
+		vAssert(r.term == p.term+1 && r.vote == c.self, "PV-campaign-bumps-term-and-votes-self")
+	} else {
+		vReach("waiting")
+		vAssert(r.term == p.term && r.vote == p.vote, "PV-no-term-change-without-quorum")
+	}
+	vReach("done")
+}
+
+// C03/V5 (+C04/O3): a restarted replica comes back with the term, vote and
+// commit index recorded in its log store.
+// vcheck: reach=done workers=4
+func VHarness_C03_Restart() {
+	db := &vDB{}
+	n := vChoose("n", 3)
+	prev := uint64(1)
+	for i := 0; i < n; i++ {
+		t := vU64("t")
+		vAssume(t >= prev)
+		vAssume(t < vMaxIdx)
+		prev = t
+		db.ents = append(db.ents, pb.Entry{Index: uint64(i + 1), Term: t})
+	}
+	db.state = pb.State{Term: vU64("term"), Vote: vU64("vote"), Commit: vU64("commit")}
+	vAssume(db.state.Term >= prev)
+	vAssume(db.state.Commit <= uint64(n))
+	vAssume(db.state.Term >= 1)
+	db.members.Addresses = map[uint64]string{1: "a1", 2: "a2", 3: "a3"}
+	cfg := vConfig(1)
+	p := Launch(cfg, db, nil, nil, false, false)
+	r := p.raft
+	vAssert(r.term == db.state.Term && r.vote == db.state.Vote, "V5-term-and-vote-reloaded")
+	vAssert(r.log.committed == db.state.Commit, "V5-commit-reloaded")
+	vAssert(r.state == follower, "V5-restarts-as-follower")
+	vAssert(r.log.lastIndex() == uint64(n), "V5-log-reloaded")
+	// and it still refuses a second vote in that term
+	if db.state.Vote != 0 {
+		m := pb.Message{Type: pb.RequestVote, To: 1, From: vU64("from"), Term: db.state.Term, LogTerm: vU64("lt"), LogIndex: vU64("li")}
+		vAssume(m.From == 2 || m.From == 3)
+		vAssume(m.From != db.state.Vote)
+		err := p.Handle(m)
+		vAssert(err == nil, "noerr")
+		for i := range r.msgs {
+			vAssert(r.msgs[i].Type != pb.RequestVoteResp || r.msgs[i].Reject, "V5-no-second-vote-after-restart")
+		}
 	}
 	vReach("done")
 }
